@@ -148,6 +148,8 @@ def check(ctx, run):
     # ---- R4
     time_to_maturity_rule(ctx, run)
     negative_step_rule(ctx, run)
+    from .c02 import option_classes_use_the_mixin
+    option_classes_use_the_mixin(ctx, run, "C13.R4")
 
 
 def forward_start_index_hazard(ctx, run, rule):
